@@ -19,6 +19,11 @@ FINDINGS carried here (kernel-checked):
 * `str_lexical_valid` holds only for strings of XML `Char`s (`str_lexical_valid_partial`,
   `str_lexical_valid_iff`); `"\u{0}"` (also U+FFFE, U+FFFF) is a Rust `str` outside `L(xsd:string)`
   (`str_nul_invalid`).
+* `f64_parse_denotes` (success ⇒ the value the lexical form denotes) holds only below an exponent of
+  655360 (`f64_parse_denotes_partial`): `core`'s `dec2flt` reads the exponent with a bounded accumulator
+  that DROPS digits (`expClamped`, `expClamped_limit_witness`), so
+  `f64::try_from_term("0.<655359 zeros>1e655360"^^xsd:double)` is `Ok(0.0)` for a literal denoting 1
+  (differential corpus case; a kernel witness would need a 655 KB string).
 * success on ill-typed literals: `int_parse_denotes` gives the value under the `xsd:integer` mapping, NOT
   membership in the datatype's own value space; `int_parse_welltyped_refuted` is the witness
   (`"-5"^^xsd:positiveInteger ↦ Ok(-5)`).  Recorded as an observation, not as a violation.
@@ -251,30 +256,98 @@ theorem no_panic (t : Term) :
   · intro v h; obtain ⟨_, _, _, _, _, _, _, hr, _⟩ := (isize_parse_denotes t v).mp h; exact hr
   · intro v h; obtain ⟨_, _, _, _, _, _, _, hr, _⟩ := (usize_parse_denotes t v).mp h; exact hr
 
-/-- **whitelist_sound** — every datatype an integer type accepts is an XSD type derived from
-`xsd:integer` (value space ⊆ ℤ, lexical space ⊆ `L(xsd:integer)`), is declared in `ns.rs`, and its
+/-! ### `no_panic` with the partial operation made explicit: ANY implementation of the `Term` trait
+
+`tryFromViewWith` is the same skeleton over what the trait lets the code observe, with
+`term.datatype().unwrap()` as an outcome.  The conversion unwinds exactly on the views that break the
+trait's contract (a lexical form but no datatype); the view of every well-formed term is not one of
+them, and there the outcome is the one of the total functions above (so every theorem about
+`…TryFromTerm` is a theorem about the `View` skeleton on well-formed terms). -/
+
+theorem view_panic_iff {ε α : Type} (cfg : Gen.Native.TryFrom) (parse : Str → Except ε α) (v : View) :
+    tryFromViewWith cfg parse v = .panic ↔ (v.lex ≠ none ∧ v.dt = none) := by
+  unfold tryFromViewWith
+  cases hl : v.lex with
+  | none =>
+    simp only
+    constructor
+    · intro h; cases hp : parse cfg.notALiteral <;> rw [hp] at h <;> cases h
+    · rintro ⟨h, _⟩; exact absurd rfl h
+  | some lex =>
+    cases hd : v.dt with
+    | none => simp
+    | some d =>
+      simp only
+      constructor
+      · intro h
+        split at h
+        · cases hp : parse lex <;> rw [hp] at h <;> cases h
+        · cases hp : parse cfg.wrongDatatype <;> rw [hp] at h <;> cases h
+      · rintro ⟨_, h⟩; cases h
+
+theorem lexicalForm_datatype {t : Term} {lex : Str} (h : lexicalForm t = some lex) : ∃ d, t.datatype = some d := by
+  cases t <;> simp [lexicalForm] at h <;> simp [Term.datatype]
+
+theorem view_of_term {ε α : Type} (cfg : Gen.Native.TryFrom) (parse : Str → Except ε α) (t : Term) :
+    tryFromViewWith cfg parse (viewOf t) = .ofExcept (tryFromTermWith cfg parse t) := by
+  unfold tryFromViewWith tryFromTermWith viewOf
+  cases hl : lexicalForm t with
+  | none => simp
+  | some lex =>
+    obtain ⟨d, hd⟩ := lexicalForm_datatype hl
+    simp only [hd]
+    have : accepted cfg t = cfg.whitelist.any (fun n => d == xsdIri n) := by
+      unfold accepted datatypeIs
+      rw [hd]
+      congr 1
+    rw [this]
+    split <;> rfl
+
+/-- **no_panic** (all five native types, every well-formed term): the outcome is never `panic` -/
+theorem no_panic_any_term (t : Term) :
+    tryFromViewWith Gen.Native.tryI32 (parseInt i32) (viewOf t) ≠ .panic ∧
+    tryFromViewWith Gen.Native.tryIsize (parseInt isize) (viewOf t) ≠ .panic ∧
+    tryFromViewWith Gen.Native.tryUsize (parseInt usize) (viewOf t) ≠ .panic ∧
+    tryFromViewWith Gen.Native.tryBool parseBool (viewOf t) ≠ .panic ∧
+    tryFromViewWith Gen.Native.tryF64 RustF64.parse (viewOf t) ≠ .panic := by
+  have key : ∀ {ε α : Type} (cfg : Gen.Native.TryFrom) (parse : Str → Except ε α),
+      tryFromViewWith cfg parse (viewOf t) ≠ .panic := by
+    intro ε α cfg parse h
+    rw [view_of_term] at h
+    cases hp : tryFromTermWith cfg parse t <;> rw [hp] at h <;> cases h
+  exact ⟨key _ _, key _ _, key _ _, key _ _, key _ _⟩
+
+-- non-vacuity: the panic is real on a contract-breaking view, and the skeleton computes on a proper one
+example : tryFromViewWith Gen.Native.tryI32 (parseInt i32) ⟨some "5".toList, none⟩ = .panic := by decide
+example : tryFromViewWith Gen.Native.tryI32 (parseInt i32) ⟨some "5".toList, some (xsdIri "int".toList)⟩ = .ok 5 := by
+  decide
+example : tryFromViewWith Gen.Native.tryBool parseBool ⟨none, none⟩ = .err () := by decide
+
+/-- **whitelist_sound** — every datatype an integer type accepts is an XSD type on which reading an
+`xsd:integer` lexical form gives the value the datatype's own mapping gives (`Xsd.intCompatible`: the
+types derived from `xsd:integer`, and `xsd:decimal`), is declared in `ns.rs`, and its
 value space meets the native type's range (no entry that could only ever yield wrong successes);
 `f64` accepts only real-valued XSD types; `bool` only `xsd:boolean`. Decided over the generated
-tables against the hand table `Xsd.integerDerived`. -/
+tables against the hand table `Xsd.intCompatible`. -/
 theorem whitelist_sound :
     (∀ n ∈ Gen.Native.tryI32.whitelist, n ∈ Gen.Native.xsdNames ∧
-      ∃ b, Xsd.boundsOf n = some b ∧ Xsd.intersects b i32.min i32.max = true) ∧
+      ∃ b, Xsd.compatBoundsOf n = some b ∧ Xsd.intersects b i32.min i32.max = true) ∧
     (∀ n ∈ Gen.Native.tryIsize.whitelist, n ∈ Gen.Native.xsdNames ∧
-      ∃ b, Xsd.boundsOf n = some b ∧ Xsd.intersects b isize.min isize.max = true) ∧
+      ∃ b, Xsd.compatBoundsOf n = some b ∧ Xsd.intersects b isize.min isize.max = true) ∧
     (∀ n ∈ Gen.Native.tryUsize.whitelist, n ∈ Gen.Native.xsdNames ∧
-      ∃ b, Xsd.boundsOf n = some b ∧ Xsd.intersects b usize.min usize.max = true) ∧
+      ∃ b, Xsd.compatBoundsOf n = some b ∧ Xsd.intersects b usize.min usize.max = true) ∧
     (∀ n ∈ Gen.Native.tryF64.whitelist, n ∈ Gen.Native.xsdNames ∧ n ∈ Xsd.realValued) ∧
     Gen.Native.tryBool.whitelist = ["boolean".toList] := by
   have key : ∀ (wl : List Str) (lo hi : Int),
       (wl.all fun n => Gen.Native.xsdNames.contains n &&
-        (match Xsd.boundsOf n with | some b => Xsd.intersects b lo hi | none => false)) = true →
-      ∀ n ∈ wl, n ∈ Gen.Native.xsdNames ∧ ∃ b, Xsd.boundsOf n = some b ∧ Xsd.intersects b lo hi = true := by
+        (match Xsd.compatBoundsOf n with | some b => Xsd.intersects b lo hi | none => false)) = true →
+      ∀ n ∈ wl, n ∈ Gen.Native.xsdNames ∧ ∃ b, Xsd.compatBoundsOf n = some b ∧ Xsd.intersects b lo hi = true := by
     intro wl lo hi h n hn
     rw [List.all_eq_true] at h
     have := h n hn
     simp only [Bool.and_eq_true, List.contains_iff_mem] at this
     refine ⟨this.1, ?_⟩
-    cases hb : Xsd.boundsOf n with
+    cases hb : Xsd.compatBoundsOf n with
     | none => rw [hb] at this; simp at this
     | some b => rw [hb] at this; exact ⟨b, rfl, this.2⟩
   refine ⟨key _ _ _ (by decide), key _ _ _ (by decide), key _ _ _ (by decide), ?_, by decide⟩
@@ -622,6 +695,256 @@ theorem f64_shape_known :
     Gen.Native.asF64.lex = .display ∨
     Gen.Native.asF64.lex = .displaySpecial "NaN".toList "INF".toList "-INF".toList := by decide
 
+theorem finite_not_special (x : F64) (hf : F64.isFinite x = true) :
+    F64.isNaN x = false ∧ x ≠ F64.posInf ∧ x ≠ F64.negInf := by
+  refine ⟨?_, ?_, ?_⟩
+  · unfold F64.isNaN; unfold F64.isFinite at hf; simp at hf ⊢; intro h; exact absurd h hf
+  · rintro rfl; revert hf; decide
+  · rintro rfl; revert hf; decide
+
+/-! ### the shape flag: the statements above that are conditional on the generated shape are instantiated on
+the CURRENT tree, so a regression of `lexical_form` (back to `format!("{}", self)`, or to non-XSD spellings)
+fails an obligation here and not only in the differential -/
+
+/-- the generated shape special-cases the non-finite values with XSD spellings -/
+def shapeOK (a : Gen.Native.AsTerm) : Bool :=
+  match a.lex with
+  | .displaySpecial nan inf ninf => xsdSpecialOK nan inf ninf
+  | _ => false
+
+theorem shapeOK_iff (a : Gen.Native.AsTerm) :
+    shapeOK a = true ↔ ∃ nan inf ninf, a.lex = .displaySpecial nan inf ninf ∧ xsdSpecialOK nan inf ninf = true := by
+  unfold shapeOK
+  cases h : a.lex with
+  | displaySpecial nan inf ninf =>
+    constructor
+    · intro hh; exact ⟨nan, inf, ninf, rfl, hh⟩
+    · rintro ⟨_, _, _, he, hh⟩; injection he with h1 h2 h3; subst h1 h2 h3; exact hh
+  | display => simp
+  | identity => simp
+  | boolTable t f => simp
+
+theorem f64_shape_valid : shapeOK Gen.Native.asF64 = true := by decide
+
+theorem f64_nonfinite_valid {fmt parse} (H : StdF64 fmt parse) : F64NonfiniteValid Gen.Native.asF64 fmt :=
+  (f64_nonfinite_valid_iff H _).mpr ((shapeOK_iff _).mp f64_shape_valid)
+
+theorem nonfinite_nonnan (x : F64) (hx : x < 2 ^ 64) (hf : F64.isFinite x = false) (hn : F64.isNaN x = false) :
+    x = F64.posInf ∨ x = F64.negInf := by
+  unfold F64.isFinite F64.isNaN F64.expBits F64.mantBits at *
+  unfold F64.posInf F64.negInf
+  simp at hf hn
+  have hm := hn hf
+  have hx' : @LT.lt Nat _ x 18446744073709551616 := hx
+  have hf' : @Eq Nat (x / 4503599627370496 % 2048) 2047 := hf
+  have hm' : @Eq Nat (x % 4503599627370496) 0 := hm
+  show @Eq Nat x 9218868437227405312 ∨ @Eq Nat x 18442240474082181120
+  omega
+
+/-- the first sentence of the property for `f64`, all bit patterns, relative to the std contract -/
+theorem f64_all_values {fmt parse} (H : StdF64 fmt parse) (x : F64) (hx : x < 2 ^ 64) :
+    (∃ lex, f64Term fmt x = .lit lex (xsdIri "double".toList) ∧ Matches Xsd.double (cps lex)) ∧
+    (∃ y, f64TryFromTerm parse (f64Term fmt x) = .ok y ∧
+      (F64.isNaN x = false → y = x) ∧ (F64.isNaN x = true → F64.isNaN y = true)) := by
+  cases hf : F64.isFinite x with
+  | true =>
+    obtain ⟨h1, h2⟩ := f64_finite_valid H x hx hf
+    refine ⟨⟨_, h1, h2⟩, x, f64_roundtrip H x hx hf, fun _ => rfl, ?_⟩
+    intro hn
+    have := (finite_not_special x hf).1
+    rw [this] at hn; cases hn
+  | false =>
+    have hv := f64_nonfinite_valid H x hx hf
+    have hsh : f64Term fmt x = .lit (f64Lex Gen.Native.asF64 fmt x) (xsdIri "double".toList) := by
+      unfold f64Term asTerm; rw [f64_datatype]
+    obtain ⟨r1, r2, r3⟩ := f64_nonfinite_roundtrip H f64_shape_known
+    refine ⟨⟨_, hsh, hv.1⟩, ?_⟩
+    cases hn : F64.isNaN x with
+    | true =>
+      obtain ⟨y, hy1, hy2⟩ := r3 x hn
+      exact ⟨y, hy1, fun h => Bool.noConfusion h, fun _ => hy2⟩
+    | false =>
+      rcases nonfinite_nonnan x hx hf hn with rfl | rfl
+      · exact ⟨_, r1, fun _ => rfl, fun h => Bool.noConfusion h⟩
+      · exact ⟨_, r2, fun _ => rfl, fun h => Bool.noConfusion h⟩
+
+/-! ### arbitrary literals → `f64` (the executable model `RustF64` of `f64::from_str` that the driver runs) -/
+
+/-- generic skeleton: success of `try_from_term` is success of `parse` on the lexical form of a literal of a
+whitelisted datatype (given that the two sentinel strings do not parse) -/
+theorem try_ok_iff {ε α : Type} (cfg : Gen.Native.TryFrom) (parse : Str → Except ε α)
+    (hw : ∃ e, parse cfg.wrongDatatype = .error e) (hn : ∃ e, parse cfg.notALiteral = .error e)
+    (t : Term) (v : α) :
+    tryFromTermWith cfg parse t = .ok v ↔
+      ∃ lex name, lexicalForm t = some lex ∧ name ∈ cfg.whitelist ∧ t.datatype = some (xsdIri name) ∧
+        parse lex = .ok v := by
+  unfold tryFromTermWith
+  cases hl : lexicalForm t with
+  | none =>
+    simp only
+    obtain ⟨e, he⟩ := hn
+    rw [he]
+    constructor
+    · intro h; cases h
+    · rintro ⟨_, _, h, _⟩; cases h
+  | some lex =>
+    simp only
+    by_cases ha : accepted cfg t = true
+    · rw [if_pos ha]
+      obtain ⟨name, hname, hdt⟩ := (accepted_iff cfg t).mp ha
+      constructor
+      · intro h; exact ⟨lex, name, rfl, hname, hdt, h⟩
+      · rintro ⟨lex', _, hl', _, _, h⟩
+        injection hl' with hl'; subst hl'; exact h
+    · rw [if_neg ha]
+      obtain ⟨e, he⟩ := hw
+      rw [he]
+      constructor
+      · intro h; cases h
+      · rintro ⟨_, name, _, hname, hdt, _⟩
+        exact absurd ((accepted_iff cfg t).mpr ⟨name, hname, hdt⟩) ha
+
+theorem f64_sentinels :
+    RustF64.parse Gen.Native.tryF64.wrongDatatype = .error .invalid ∧
+    RustF64.parse Gen.Native.tryF64.notALiteral = .error .invalid := by decide
+
+theorem f64_try_ok_iff (t : Term) (v : F64) :
+    RustF64.tryFromTerm t = .ok v ↔
+      ∃ lex name, lexicalForm t = some lex ∧ name ∈ Gen.Native.tryF64.whitelist ∧
+        t.datatype = some (xsdIri name) ∧ RustF64.parse lex = .ok v :=
+  try_ok_iff _ _ ⟨_, f64_sentinels.1⟩ ⟨_, f64_sentinels.2⟩ t v
+
+
+-- non-vacuity
+example : RustF64.tryFromTerm (.lit "-INF".toList (xsdIri "float".toList)) = .ok F64.negInf := by decide
+example : RustF64.tryFromTerm (.lit "1".toList (xsdIri "integer".toList)) = .error .invalid := by decide
+
+/-! exponent reader of `dec2flt` -/
+
+theorem natOfDigits_foldl_ge (ds : Str) (a : Nat) :
+    a ≤ ds.foldl (fun a c => a * 10 + (c.toNat - 48)) a := by
+  induction ds generalizing a with
+  | nil => exact Nat.le_refl _
+  | cons c cs ih =>
+    simp only [List.foldl_cons]
+    exact Nat.le_trans (by omega) (ih _)
+
+theorem expClamped_foldl_eq (ds : Str) (a : Nat)
+    (h : ds.foldl (fun a c => a * 10 + (c.toNat - 48)) a < 655360) :
+    ds.foldl (fun e c => if e < 0x10000 then e * 10 + (c.toNat - 48) else e) a =
+    ds.foldl (fun a c => a * 10 + (c.toNat - 48)) a := by
+  induction ds generalizing a with
+  | nil => rfl
+  | cons c cs ih =>
+    simp only [List.foldl_cons] at h ⊢
+    have hge := natOfDigits_foldl_ge cs (a * 10 + (c.toNat - 48))
+    have ha : a < 0x10000 := by omega
+    rw [if_pos ha]
+    exact ih _ h
+
+/-- `core` reads every exponent below 655360 exactly -/
+theorem expClamped_exact_below_limit (ds : Str) (h : Dec.natOfDigits ds < RustF64.expClampLimit) :
+    RustF64.expClamped ds = Dec.natOfDigits ds := by
+  unfold RustF64.expClamped Dec.natOfDigits at *
+  exact expClamped_foldl_eq ds 0 h
+
+/-- … and misreads 655360 (as 65536): the limit is sharp -/
+theorem expClamped_limit_witness :
+    RustF64.expClamped "655360".toList = 65536 ∧ Dec.natOfDigits "655360".toList = RustF64.expClampLimit := by
+  decide
+
+theorem doubleOfNumericWith_congr (f g : Str → Nat) (s : Str) (h : f (Dec.expPart s).2 = g (Dec.expPart s).2) :
+    Dec.doubleOfNumericWith f s = Dec.doubleOfNumericWith g s := by
+  unfold Dec.doubleOfNumericWith
+  rw [h]
+
+theorem numeric_not_nil : Xsd.matchesS Xsd.doubleNumeric [] = false := by decide
+
+/-- what a successful `f64::from_str` was given: one of the three syntactic classes of `dec2flt` -/
+theorem f64_parse_ok_lexical {s : Str} {v : F64} (h : RustF64.parse s = .ok v) :
+    Xsd.matchesS RustF64.numeric s = true ∨ Xsd.matchesS RustF64.infRe s = true ∨
+      Xsd.matchesS RustF64.nanRe s = true := by
+  unfold RustF64.parse at h
+  split at h
+  · cases h
+  · split at h
+    · rename_i h1; exact .inl h1
+    · simp only at h
+      split at h
+      · rename_i h2; exact .inr (.inl h2)
+      · split at h
+        · rename_i h3; exact .inr (.inr h3)
+        · cases h
+
+theorem specialVal_cases {s : Str} {k : Xsd.Special} (h : Xsd.specialVal s = some k) :
+    (k = .posInf ∧ (s = "INF".toList ∨ s = "+INF".toList)) ∨ (k = .negInf ∧ s = "-INF".toList) ∨
+      (k = .nan ∧ s = "NaN".toList) := by
+  unfold Xsd.specialVal at h
+  split at h
+  · rename_i hs; injection h with h; exact .inl ⟨h.symm, hs⟩
+  · split at h
+    · rename_i hs; injection h with h; exact .inr (.inl ⟨h.symm, hs⟩)
+    · split at h
+      · rename_i hs; injection h with h; exact .inr (.inr ⟨h.symm, hs⟩)
+      · cases h
+
+def F64Denoted (d : Option F64) (v : F64) : Prop :=
+  match d with
+  | some b => v = b
+  | none => F64.isNaN v = true
+
+theorem f64_parse_denotes_partial (s : Str) (d : Option F64)
+    (hlim : Dec.natOfDigits (Dec.expPart s).2 < RustF64.expClampLimit)
+    (hd : Dec.doubleVal s = some d) :
+    ∃ v, RustF64.parse s = .ok v ∧ F64Denoted d v := by
+  unfold Dec.doubleVal at hd
+  split at hd
+  · rename_i hnum
+    injection hd with hd
+    subst hd
+    have hne : s ≠ [] := by rintro rfl; rw [numeric_not_nil] at hnum; cases hnum
+    refine ⟨Dec.doubleOfNumeric s, ?_, rfl⟩
+    unfold RustF64.parse
+    rw [if_neg hne]
+    have : Xsd.matchesS RustF64.numeric s = true := hnum
+    rw [if_pos this]
+    congr 1
+    exact doubleOfNumericWith_congr _ _ s (expClamped_exact_below_limit _ hlim)
+  · rename_i hnum
+    split at hd
+    · rename_i hk
+      injection hd with hd; subst hd
+      rcases specialVal_cases hk with ⟨_, rfl | rfl⟩ | ⟨h, _⟩ | ⟨h, _⟩
+      · exact ⟨F64.posInf, by decide, rfl⟩
+      · exact ⟨F64.posInf, by decide, rfl⟩
+      · cases h
+      · cases h
+    · rename_i hk
+      injection hd with hd; subst hd
+      rcases specialVal_cases hk with ⟨h, _⟩ | ⟨_, rfl⟩ | ⟨h, _⟩
+      · cases h
+      · exact ⟨F64.negInf, by decide, rfl⟩
+      · cases h
+    · rename_i hk
+      injection hd with hd; subst hd
+      rcases specialVal_cases hk with ⟨h, _⟩ | ⟨h, _⟩ | ⟨_, rfl⟩
+      · cases h
+      · cases h
+      · exact ⟨F64.qNaN, by decide, (by decide : F64.isNaN F64.qNaN = true)⟩
+    · cases hd
+
+/-- the FULL statement (no bound on the exponent).  Not provable: `expClamped_limit_witness` shows the
+exponent 655360 is misread; a refutation needs a numeric form whose value is finite although its exponent
+is that large, i.e. ≥ 655359 padding zeros — checked by the differential (corpus/C20/exp-clamp.req), where
+the model reproduces the implementation's `Ok(0.0)` and the exact oracle says 1. -/
+def F64ParseDenotes : Prop :=
+  ∀ s d, Dec.doubleVal s = some d → ∃ v, RustF64.parse s = .ok v ∧ F64Denoted d v
+
+-- non-vacuity of `f64_parse_denotes_partial`
+example : Dec.doubleVal "1.5e3".toList = some (some 0x4097700000000000) ∧
+    Dec.natOfDigits (Dec.expPart "1.5e3".toList).2 < RustF64.expClampLimit ∧
+    RustF64.parse "1.5e3".toList = .ok 0x4097700000000000 := by decide
+
 /-! ### H1–H4 are satisfiable (by a non-trivial pair: a printer/parser of the *bit pattern* in decimal;
 not Rust's, but a witness that `StdF64` is consistent and the theorems above are not vacuous) -/
 
@@ -640,13 +963,6 @@ def toyParse (s : Str) : Except Unit F64 :=
   else match parseInt bits64 s with
     | .ok v => .ok v.toNat
     | .error _ => .error ()
-
-theorem finite_not_special (x : F64) (hf : F64.isFinite x = true) :
-    F64.isNaN x = false ∧ x ≠ F64.posInf ∧ x ≠ F64.negInf := by
-  refine ⟨?_, ?_, ?_⟩
-  · unfold F64.isNaN; unfold F64.isFinite at hf; simp at hf ⊢; intro h; exact absurd h hf
-  · rintro rfl; revert hf; decide
-  · rintro rfl; revert hf; decide
 
 theorem toy_std : StdF64 toyFmt toyParse := by
   refine ⟨?_, ?_, ⟨by decide, by decide, ?_⟩, ⟨by decide, by decide, by decide, by decide, F64.qNaN, by decide, by decide⟩⟩
